@@ -1,7 +1,7 @@
 (* Model for C09: the bookkeeping behind fakesnow's metadata answers. DuckDB keeps the live catalog
    (tables, columns, types); what it cannot keep - table comments and declared VARCHAR lengths - goes to
    the side tables _fs_tables_ext / _fs_columns_ext (info_schema.py:8-32), written by cursor.py:329-355
-   (after fixes 249cf77, ca4ef8a, b064ad4) and read back by _fs_columns_snowflake / the tables_ext join
+   (after fixes 249cf77, ca4ef8a, d04f18a, 6836b10) and read back by _fs_columns_snowflake / the tables_ext join
    (info_schema.py:36-80, transforms.py:583-622) and DESCRIBE TABLE (transforms.py:147-221).
    The live list also carries, as ghost data, what the user declared for the CURRENT incarnation of each
    table: that is what Snowflake would report. Names arrive normalised (C02). *)
@@ -63,6 +63,11 @@ Definition put_lengths (k : key) (cols : list coldef) (m : amap Z) : amap Z :=
 Definition put_comment (k : key) (c : option str) (m : amap str) : amap str :=
   match c with Some x => upsert m k x | None => m end.
 
+(* UPDATE ... SET ext_column_name / ext_table_name: every row's key goes through f *)
+Definition rekey {X} (f : key -> key) (m : amap X) : amap X := map (fun p => (f (fst p), snd p)) m.
+Definition recol (k : key) (c c' : str) (key' : key) : key := if key_eqb key' (k ++ [c]) then k ++ [c'] else key'.
+Definition retable (k k' : key) (key' : key) : key := if of_table k key' then k' ++ skipn 3 key' else key'.
+
 Definition rename_col (cols : list coldef) (c c' : str) : list coldef :=
   map (fun x => if str_eqb (cname x) c then {| cname := c'; cty := cty x |} else x) cols.
 
@@ -111,7 +116,7 @@ Definition step (st : state) (o : op) : state :=
           | Some _ =>
               if Nat.leb (length (tcols t)) 1 then st        (* DuckDB refuses to drop the only column *)
               else {| live := upsert (live st) k {| tcols := filter (fun x => negb (str_eqb (cname x) c)) (tcols t); tcomment := tcomment t |};
-                      side_c := side_c st; side_l := side_l st |}
+                      side_c := side_c st; side_l := remove_if (key_eqb (k ++ [c])) (side_l st) |}   (* delete_column_ext_sql *)
           end
       end
   | RenameColumn k c c' =>
@@ -120,13 +125,16 @@ Definition step (st : state) (o : op) : state :=
       | Some t =>
           match find_col (tcols t) c, find_col (tcols t) c' with
           | Some _, None => {| live := upsert (live st) k {| tcols := rename_col (tcols t) c c'; tcomment := tcomment t |};
-                               side_c := side_c st; side_l := side_l st |}
+                               side_c := side_c st;                                             (* rename_column_ext_sql *)
+                               side_l := rekey (recol k c c') (remove_if (key_eqb (k ++ [c'])) (side_l st)) |}
           | _, _ => st
           end
       end
   | RenameTable k k' =>
       match lookup (live st) k, lookup (live st) k' with
-      | Some t, None => {| live := upsert (remove_if (key_eqb k) (live st)) k' t; side_c := side_c st; side_l := side_l st |}
+      | Some t, None => {| live := upsert (remove_if (key_eqb k) (live st)) k' t;               (* rename_table_ext_sql *)
+                           side_c := rekey (retable k k') (remove_if (of_table k') (side_c st));
+                           side_l := rekey (retable k k') (remove_if (of_table k') (side_l st)) |}
       | _, _ => st
       end
   | Clone k src =>
@@ -159,10 +167,11 @@ Definition describe_spec (st : state) (k : key) : option (list (str * (Z + Z))) 
   option_map (fun t => describe_with (len_spec st k) (tcols t)) (lookup (live st) k).
 
 (* the statements on which the side tables follow the declarations exactly: CREATE [OR REPLACE] TABLE, DROP TABLE,
-   DROP SCHEMA, ALTER TABLE ADD COLUMN, and comments on existing tables *)
+   DROP SCHEMA, ALTER TABLE ADD / DROP / RENAME COLUMN, RENAME TO, and comments on existing tables *)
 Definition dom_at (st : state) (o : op) : bool :=
   match o with
-  | Create _ k _ _ | Drop k | AddColumn k _ => Nat.eqb (length k) 3
+  | Create _ k _ _ | Drop k | AddColumn k _ | DropColumn k _ | RenameColumn k _ _ => Nat.eqb (length k) 3
+  | RenameTable k k' => Nat.eqb (length k) 3 && Nat.eqb (length k') 3 && key_eqb (firstn 2 k) (firstn 2 k')   (* RENAME TO stays in its schema *)
   | SetComment k _ => Nat.eqb (length k) 3 && match lookup (live st) k with Some _ => true | None => false end
   | DropSchema _ _ => true
   | _ => false
